@@ -1,7 +1,12 @@
 //! vcheck — model-checking driver for the cfdp-rs properties C01..C20.
 //! usage: vcheck <ID> [--tier quick|thorough] [--replay <file>] [extra…]
+mod bfs;
 mod common;
+mod mons;
+mod props_e1;
+mod refck;
 mod seq_segments;
+mod world;
 
 use common::{Args, Tier};
 use std::time::Instant;
@@ -44,7 +49,10 @@ fn main() {
     std::env::set_var("TMPDIR", &scratch);
     let started = Instant::now();
     let report = match id.as_str() {
+        "C01" => props_e1::c01(&args),
+        "C02" => props_e1::c02(&args),
         "C09" => seq_segments::run(&args),
+        "DBG" => props_e1::dbg(&args),
         _ => {
             eprintln!("unknown property id {}", id);
             std::process::exit(2)
